@@ -470,6 +470,53 @@ fn main() {
                         path,
                     ));
                 }
+                // connector phase: HyperQueue's client connector against a listener of the harness,
+                // all behaviour sequences up to length 3 (exhaustive, 310 cases)
+                if common::PRE_VIOLATION.lock().unwrap().is_none() {
+                    let t1 = std::time::Instant::now();
+                    let cases = auth::connector_cases();
+                    let mut done = 0usize;
+                    let mut skipped: Option<String> = None;
+                    for c in &cases {
+                        match auth::run_connector_case(c) {
+                            Ok((ok, seen)) => {
+                                done += 1;
+                                if let Some((sig, detail)) = auth::connector_verdict(c, ok, seen) {
+                                    let dir = Path::new(common::VERIF_ROOT).join("replays").join("C20").join("found");
+                                    let _ = std::fs::create_dir_all(&dir);
+                                    let body = serde_json::to_string_pretty(&serde_json::json!({
+                                        "property": "C20", "seed": seed, "signature": sig, "detail": detail,
+                                        "case": {"connector": [c.0, c.1]},
+                                    }))
+                                    .unwrap();
+                                    let path = dir.join(format!("connector-{:016x}.json", common::hash_str(&body)));
+                                    let _ = std::fs::write(&path, body);
+                                    *common::PRE_VIOLATION.lock().unwrap() =
+                                        Some((common::Violation { signature: sig, detail }, path));
+                                    break;
+                                }
+                            }
+                            Err(e) => {
+                                skipped = Some(e);
+                                break;
+                            }
+                        }
+                    }
+                    println!(
+                        "C20 connector: {done} of {} behaviour sequences against the real client connector, {:.1}s{}",
+                        cases.len(),
+                        t1.elapsed().as_secs_f64(),
+                        skipped.as_ref().map(|s| format!(" (incomplete: {s})")).unwrap_or_default()
+                    );
+                    if let Some(x) = common::EXTRA_COVERAGE.lock().unwrap().as_mut() {
+                        x["connector"] = serde_json::json!({
+                            "what": "ClientSession::connect_to_server against a listener of the harness: per connection the listener closes, sends garbage, or answers as an honest server without a key / with the client's key / with another key; all sequences up to length 3 for a client with and without a key; the client may accept only a connection on which the listener proved the client's configuration, and accepts an undisturbed matching exchange",
+                            "cases": done,
+                            "exhaustive": done == cases.len(),
+                            "skipped": skipped,
+                        });
+                    }
+                }
                 run_engine(Arc::new(auth::AuthEngine), tier, seed)
             } else if prop == "C19" {
                 run_engine(Arc::new(stream::StreamEngine), tier, seed)
@@ -502,7 +549,28 @@ fn main() {
                 .ok()
                 .and_then(|t| serde_json::from_str::<serde_json::Value>(&t).ok())
                 .and_then(|v| serde_json::from_value::<(u8, u8, u8, u32)>(v["case"]["wire"].clone()).ok());
-            if let Some(a) = wire {
+            let connector: Option<auth::ConnectorCase> = std::fs::read_to_string(path)
+                .ok()
+                .and_then(|t| serde_json::from_str::<serde_json::Value>(&t).ok())
+                .and_then(|v| serde_json::from_value::<(bool, Vec<u8>)>(v["case"]["connector"].clone()).ok());
+            if let Some(c) = connector {
+                match auth::run_connector_case(&c) {
+                    Ok((ok, seen)) => {
+                        if let Some((sig, detail)) = auth::connector_verdict(&c, ok, seen) {
+                            println!("VIOLATION property=C20 replay={}", path.display());
+                            println!("  signature: {sig}\n  detail: {detail}");
+                            1
+                        } else {
+                            println!("no violation of C20 in this replay (client ok={ok}, {seen} connections)");
+                            0
+                        }
+                    }
+                    Err(e) => {
+                        println!("INCONCLUSIVE: {e}");
+                        2
+                    }
+                }
+            } else if let Some(a) = wire {
                 let r = auth::wire_phase(Some(a));
                 if let Some((sig, detail, _)) = auth::wire_verdict(&r) {
                     println!("VIOLATION property=C20 replay={}", path.display());
